@@ -614,7 +614,10 @@ soxr_error_t soxr_clear(soxr_t p) /* TODO: this, properly. */
     memcpy(p->control_block, tmp.control_block, sizeof(p->control_block));
     p->deinterleave = tmp.deinterleave;
     p->interleave = tmp.interleave;
-    return (p->q_spec.flags & RESET_ON_CLEAR)?
+    if (!(p->q_spec.flags & RESET_ON_CLEAR))
+      return 0;
+    p->io_ratio = tmp.io_ratio; /* As soxr_create; # channels may be unset. */
+    return (p->num_channels && p->io_ratio!=0)?
       soxr_set_io_ratio(p, tmp.io_ratio, 0) : 0;
   }
   return "invalid soxr_t pointer";
